@@ -34,10 +34,9 @@ class Tap:
         self._orig_dgtsv = rnb.dgtsv
         tap = self
 
-        def fill(self_, resist_f_effective, resist_pg_effective):
-            cells = tap._orig_fill(self_, resist_f_effective, resist_pg_effective)
+        def fill(self_, *a_, **kw_):
+            cells = tap._orig_fill(self_, *a_, **kw_)
             tap.cells = np.array(cells, copy=True)
-            tap.args = (resist_f_effective, resist_pg_effective)
             tap.hits["fill_radial_cells"] += 1
             return cells
 
